@@ -178,7 +178,7 @@ func buildCases(c *Corpus, thorough bool) error {
 					continue
 				}
 				c.Cases = append(c.Cases, Case{Kind: "boxsize", Target: t, Off: bx.Off, Val: v, Width: 4, Name: bx.Path})
-				if bx.Off < hdrLen && (v == 0 || v == 7 || v == sz+1 || v == 0xFFFFFFFF) {
+				if bx.Off < hdrLen && (v == 0 || v == 7 || v == 0xFFFFFFFF) {
 					hdrDevs = append(hdrDevs, dev{bx.Off, v, 4, bx.Path + ".size"})
 				}
 			}
